@@ -3,6 +3,7 @@ package main
 import (
 	"fmt"
 	"go/token"
+	"go/types"
 	"strings"
 
 	"golang.org/x/tools/go/ssa"
@@ -312,8 +313,29 @@ func checkC03(c *Ctx, r *Report) {
 					if !isCallTo(in, p.rel...) {
 						return false
 					}
-					rp := pathOf(callArgs(in.(ssa.CallInstruction))[0])
-					return fieldPath != "" && (rp == fieldPath || strings.HasPrefix(rp, fieldPath+"."))
+					recv := callArgs(in.(ssa.CallInstruction))[0]
+					rp := pathOf(recv)
+					if fieldPath != "" && (rp == fieldPath || strings.HasPrefix(rp, fieldPath+".")) {
+						return true
+					}
+					// ... or on the acquired value itself, kept in a local until the re-parenting is known to succeed
+					// (through the embedded resourceScope)
+					v := resolveLoad(strip2(recv))
+					for d := 0; d < 6; d++ {
+						if v == acq.(ssa.Value) {
+							return true
+						}
+						if ld, isLd := v.(*ssa.UnOp); isLd && ld.Op == token.MUL {
+							v = ld.X // (a scope embedded by pointer: *(&x.resourceScope))
+							continue
+						}
+						fa, isFA := v.(*ssa.FieldAddr)
+						if !isFA {
+							break
+						}
+						v = resolveLoad(strip2(fa.X))
+					}
+					return false
 				}
 				// ... or a local closure / helper of the package every path of which drops that reference
 				isRel := func(in ssa.Instruction) bool {
@@ -826,6 +848,54 @@ func checkC03(c *Ctx, r *Report) {
 			}
 		}
 		r6.Check(n > 0, "writers of "+key, token.NoPos, n, fmt.Sprintf("%d writes, all in resources methods / doneUnlocked", n), "no writer found (field renamed?)", "")
+	}
+
+	// ---- R8: the reservation's priority and size reach every scope that constrains it ---------------------------
+	// "never more than the limit scaled by priority" holds in every constraining scope only if the caller's priority
+	// (and size) is what each level hands to the next: ReserveMemory -> resources.reserveMemory / reserveMemoryForEdges
+	// -> owner.ReserveMemory / edge.ReserveMemoryForChild -> resources.reserveMemory -> checkMemory. (ReserveForChild,
+	// which re-parents an existing charge, is the one place that uses ReservationPriorityAlways; it is not in the chain.)
+	r8 := r.Rule("C03-R8", "E6", 16, "memory reservations thread the caller's priority and size unchanged through every level: ReserveMemory, reserveMemoryForEdges, ReserveMemoryForChild, resources.reserveMemory, checkMemory")
+	chain := map[string]bool{RS("ReserveMemory"): true, RS("reserveMemoryForEdges"): true, RS("ReserveMemoryForChild"): true, m("resources", "reserveMemory"): true, m("resources", "checkMemory"): true}
+	for _, fk := range []string{RS("ReserveMemory"), RS("reserveMemoryForEdges"), RS("ReserveMemoryForChild"), m("resources", "reserveMemory")} {
+		f := r8.need(fk)
+		if f == nil {
+			continue
+		}
+		var prioP, sizeP *ssa.Parameter
+		for _, p := range f.Params {
+			if bt, ok := p.Type().Underlying().(*types.Basic); ok && bt.Kind() == types.Uint8 {
+				prioP = p
+			} else if ok && (bt.Kind() == types.Int || bt.Kind() == types.Int64) {
+				sizeP = p
+			}
+		}
+		if prioP == nil || sizeP == nil {
+			r8.Fail(fk+": priority / size parameters", f.Pos(), "not identified", "")
+			continue
+		}
+		n := 0
+		for _, in := range findInstrs(f, func(in ssa.Instruction) bool { ci, ok := in.(ssa.CallInstruction); return ok && chain[calleeKey(ci)] }) {
+			ci := in.(ssa.CallInstruction)
+			callee := calleeKey(ci)
+			n++
+			var gotPrio, gotSize ssa.Value
+			for _, a := range ci.Common().Args {
+				if bt, ok := a.Type().Underlying().(*types.Basic); ok && bt.Kind() == types.Uint8 {
+					gotPrio = a
+				} else if ok && (bt.Kind() == types.Int || bt.Kind() == types.Int64) {
+					gotSize = a
+				}
+			}
+			isP := func(v ssa.Value, p *ssa.Parameter) bool {
+				return v != nil && (strip(v) == ssa.Value(p) || isParamCellLoad(c, strip(v), p))
+			}
+			r8.Check(isP(gotPrio, prioP), fk+": passes its caller's priority to "+calleeShort0(callee), instrPos(ci.(ssa.Instruction)), 1, "",
+				"the scopes above enforce the full limit (or another threshold) instead of the limit scaled by the reservation's priority", describeVal(gotPrio))
+			r8.Check(isP(gotSize, sizeP), fk+": passes its caller's size to "+calleeShort0(callee), instrPos(ci.(ssa.Instruction)), 1, "",
+				"a constraining scope is charged another amount than the scope that asked", describeVal(gotSize))
+		}
+		r8.Check(n >= 1, fk+": hands the reservation on", f.Pos(), n, "", "the reservation never reaches the next level", "")
 	}
 }
 
